@@ -664,7 +664,7 @@ static int sys_cmd (char *line)
               fwrite (data, 1, size, f);
               fclose (f);
               set_mtime (path, (long) st.st_mtime);
-              vh_out ("corrupted %s %s at=%ld of=%ld", tok[1], tok[2], at, (long) st.st_size);
+              vh_out ("corrupted %s", tok[1]);
             }
           else if (f)
             fclose (f);
